@@ -195,7 +195,10 @@ def nested_boxes(levels, corners="++++"):
 # the zoo: one generator that composes every feature class seen to matter, shared by all checks
 # ---------------------------------------------------------------------------------------------
 
-SPECIAL_LABEL = ["é", "ü", "ж", "一", "本語", "á", "a​b", "x️", "\t", "a\tb", "\x01", "￾", "́", "😀", "a&b", "<b>", "'q'"]
+# Unicode blanks and separators: white space for `char::is_whitespace`, not line breaks for `str::lines`
+UNI_SPACES = "\u2028\u2029\u0085\u000b\u000c\u00a0\u1680\u2000\u2003\u200a\u202f\u205f\u3000"
+SPECIAL_LABEL = ["a\u2028b", "x\u2029y z", "a\u0085b", "a\u000bb", "a\u000cb", "a\u00a0b", "a\u3000b", "a\u2003b", "a\u205fb",
+                 "é", "ü", "ж", "一", "本語", "á", "a​b", "x️", "\t", "a\tb", "\x01", "￾", "́", "😀", "a&b", "<b>", "'q'"]
 
 
 def styled_box(rng, inner=None, w=None, h=None):
@@ -392,7 +395,8 @@ def zoo_piece(rng, quotes=True, tags=True, special=True):
 
 
 LEGENDS = ["a = {fill:red}", "b1 = {stroke:blue;}", "w = {}", "red = { fill : #f00 }", "a = {fill:blue}\nb1 = {x:y}",
-           "w = {stroke-dasharray: 1 2;\n  fill: none}", "a={fill:red} ", "big = {a}"]
+           "w = {stroke-dasharray: 1 2;\n  fill: none}", "a={fill:red} ", "big = {a}",
+           "w = {fill：red；}", "a = {＜b＞＆c}", "b1 = {x:﹤y﹥﹠}"]
 
 
 def zoo(rng, legend=True, quotes=True, tags=True, special=True, crlf=False):
@@ -416,7 +420,13 @@ def zoo(rng, legend=True, quotes=True, tags=True, special=True, crlf=False):
     if not legend:
         art = art.split("# Legend:")[0]
     elif rng.chance(1, 4):
-        art = art.split("# Legend:")[0].rstrip("\n") + "\n\n# Legend:" + rng.choice(["", " "]) + "\n" + \
+        body = art.split("# Legend:")[0].rstrip("\n")
+        if rng.chance(1, 3):
+            # something before the legend that a legend finder can trip over: a mere mention of the marker (in a note, in
+            # a quoted label), an unpaired quote (an inch mark, a ditto mark)
+            body += "\n" + rng.choice(["see # Legend: below", '"# Legend:" x', '"see # Legend: a"', '5" pipe', 'a "', "# Legend: x",
+                                       '3.5"', "# Legend:x", "#Legend:"])
+        art = body + "\n\n# Legend:" + rng.choice(["", " "]) + "\n" + \
             "\n".join(rng.choice(LEGENDS) for _ in range(rng.range(1, 3))) + rng.choice(["", "\n", "\n\n"])
     if not tags:
         art = art.replace("{", "(").replace("}", ")")
